@@ -121,6 +121,61 @@ def cli_flag_check(quick=True):
     return n, None
 
 
+def cli_determinism_check(quick=True):
+    """C07, bounded: the real command-line binary (single-file mode and rayon batch mode under different worker
+    counts) returns the same bytes for the same --seed/--protocol/configuration in separate processes.
+    Returns (n_runs, first_violation or None)."""
+    import shutil
+    env = dict(os.environ, CARGO_NET_OFFLINE='true')
+    p = subprocess.run(['cargo', 'build', '--release', '--offline', '--quiet', '--manifest-path', os.path.join(REPO, 'Cargo.toml'),
+                        '--bin', 'pickle-fuzzer', '--target-dir', CLI_TARGET], env=env, capture_output=True, text=True)
+    if p.returncode != 0:
+        raise RuntimeError('CLI build failed: ' + p.stderr[-1500:])
+    exe = os.path.join(CLI_TARGET, 'release', 'pickle-fuzzer')
+    out = os.path.join(VERIF, 'build', 'cli-det' + SFX)
+    shutil.rmtree(out, ignore_errors=True)
+    os.makedirs(out)
+    n = 0
+    try:
+        for P in range(6):
+            for sd in ((0, 7) if quick else (0, 1, 7, 42, 1000003)):
+                for extra in ([], ['--mutators', 'offbyone', 'memoindex', 'stringlen', 'character', '--mutation-rate', '0.5']):
+                    base = ['--protocol', str(P), '--seed', str(sd), '--min-opcodes', '200', '--max-opcodes', '500'] + extra
+                    ref = None
+                    for k in range(2):
+                        f = os.path.join(out, 'one%d.pkl' % k)
+                        r = subprocess.run([exe, f] + base, capture_output=True, text=True)
+                        n += 1
+                        if r.returncode != 0:
+                            return n, (' '.join(base), 'C09 the command-line run failed: %s' % r.stderr[-200:])
+                        data = open(f, 'rb').read()
+                        if ref is None:
+                            ref = data
+                        elif data != ref:
+                            return n, (' '.join(base), 'C07 two runs of the CLI with the same seed and configuration wrote different bytes (%d vs %d)' % (len(ref), len(data)))
+                    # batch mode: the i-th sample must not depend on the number of workers or on the run
+                    # (it may legitimately differ from the single-file output and from sample to sample)
+                    first = None
+                    for threads in ('1', '8', '8'):
+                        d = os.path.join(out, 'batch' + threads)
+                        shutil.rmtree(d, ignore_errors=True)
+                        r = subprocess.run([exe, '--dir', d, '--samples', '12'] + base, capture_output=True, text=True,
+                                           env=dict(os.environ, RAYON_NUM_THREADS=threads))
+                        n += 1
+                        if r.returncode != 0 or not os.path.isdir(d):
+                            continue
+                        cur = {fn: open(os.path.join(d, fn), 'rb').read() for fn in sorted(os.listdir(d))}
+                        if first is None:
+                            first = cur
+                        elif cur != first:
+                            fn = sorted(k for k in set(cur) | set(first) if cur.get(k) != first.get(k))[0]
+                            return n, ('--dir <d> --samples 12 ' + ' '.join(base) + ' (RAYON_NUM_THREADS=1 vs %s, file %s)' % (threads, fn),
+                                       'C07 batch mode wrote different bytes for the same sample, seed and configuration in two runs with different worker counts')
+    finally:
+        shutil.rmtree(out, ignore_errors=True)
+    return n, None
+
+
 def run_jobs(jobs, timeout=600):
     p = subprocess.run([BIN], input='\n'.join(jobs) + '\n', capture_output=True, text=True, timeout=timeout)
     lines = p.stdout.split('\n')
